@@ -67,6 +67,12 @@ class C15(Check):
             n = rng.randrange(7, 31)      # how a boundary time rounds through Julian dates depends on the elapsed seconds: vary them widely
         start = gen.draw_start(rng, gen.EOP_FIRST, gen.EOP_LAST - dt.timedelta(days=2), whole_minute_p=0.3)
         orb = gen.draw_orbit(rng, rng.choice(["leo", "meo", "geo", "heo"]), emax=0.5)
+        equatorial = rng.random() < 0.1
+        if equatorial:
+            # exactly in the equatorial plane (z = vz = 0): the hemisphere rule of the plane-change thrust sits on its boundary for the whole burn
+            r0 = float(np.linalg.norm(orb["pos"]))
+            ang0 = rng.uniform(0, 2 * np.pi)
+            orb = {"pos": [r0 * np.cos(ang0), r0 * np.sin(ang0), 0.0], "vel": [-np.sqrt(kepler.MU / r0) * np.sin(ang0), np.sqrt(kepler.MU / r0) * np.cos(ang0), 0.0]}
         tgt = gen.eci_target(10001, orb["pos"], orb["vel"])
         lat, lon, alt = gen.draw_site(rng)
         sensor = gen.ground_sensor(90001, lat, lon, alt, gen.sensor_block("optical"))
@@ -134,9 +140,24 @@ class C15(Check):
                         "thrust_vector": dvv, "thrust_frame": rng.choice(["eci", "ntw"]), "planned": False})
         geop = {"model": "egm96.txt", "degree": rng.choice([0, 2, 4]), "order": rng.choice([0, 0, 2])}
         geop["order"] = min(geop["order"], geop["degree"])
+        pert3 = rng.choice([[], [], ["moon"], ["sun", "moon"]])
+        if equatorial and rng.random() < 0.7:
+            geop.update({"degree": 0, "order": 0})      # nothing but the thrust leaves the plane
+            pert3 = []
+            # (only the side that pushes away from the plane: thrust towards it flips sign every time the plane is crossed - a sliding mode no
+            #  integrator gets through, the reference included)
+            if evs[0]["event_type"] == "finite_maneuver" and evs[0].get("maneuver_type") == "plane_change":
+                evs[0]["maneuver_mag"] = abs(evs[0]["maneuver_mag"])
+            if evs[0]["event_type"] != "finite_maneuver" or evs[0].get("maneuver_type") != "plane_change":
+                evs[0] = {"scope": "agent_propagation", "scope_instance_id": 10001, "event_type": "finite_maneuver", "maneuver_mag": 10 ** rng.uniform(-7, -5),
+                          "maneuver_type": "plane_change", "planned": False, "start_time": evs[0]["start_time"], "end_time": evs[0]["end_time"]}
+        if equatorial:
+            for e3 in evs:
+                if e3.get("maneuver_type") == "plane_change":
+                    e3["maneuver_mag"] = abs(e3["maneuver_mag"])
         cfg = gen.base_config(start, step, n, [gen.engine_block(1, [sensor], [tgt])], model="special_perturbations", integrator=rng.choice(["RK45", "DOP853"]),
                               truth_only=True, seed=1, geopotential=geop, events=evs,
-                              perturbations={"third_bodies": rng.choice([[], [], ["moon"], ["sun", "moon"]]), "solar_radiation_pressure": False, "general_relativity": False})
+                              perturbations={"third_bodies": pert3, "solar_radiation_pressure": False, "general_relativity": False})
         ncalls = rng.choice([1, 1, 2])
         plan = [{"seconds": total}] if ncalls == 1 else [{"seconds": step * rng.randrange(1, n)}, {"seconds": total}]
         return {"config": cfg, "plan": plan, "schedule": {"name": "seeded", "seed": rng.randrange(2**31), "retry_rate": rng.choice([0.0, 0.0, 0.3])}, "job_seed": 1}
